@@ -9,8 +9,16 @@ import (
 
 // RandomPartitioner: token = |signed 128-bit big-endian md5|. md5 itself is an uninterpreted
 // function (assembly); the reference negation is done on two 64-bit halves.
+// md5.Sum is replaced by a stub that returns an arbitrary digest (the same one to the driver and to the
+// reference): the claim is "for every 128-bit digest the token is |signed digest|".
+var vDigest [16]byte
+
+func vstubMD5Sum(data []byte) [16]byte { return vDigest }
+
 func vh_random_hash() {
 	key := vBytes("key", 4)
+	d := vBytesN("digest", 16)
+	copy(vDigest[:], d)
 	sum := md5.Sum(key)
 	var hi, lo uint64
 	for i := 0; i < 8; i++ {
